@@ -297,3 +297,31 @@ def conditionally_bound(O):
             "are computed from, so a statically accepted test yields the static rows whatever the driver returns")
 def driver_answers_leave_no_trace(O):
     dri.glue_keeps_state(O, rep())
+
+
+@obligation("C15/dig-signal-order", desc="dig::File::parse and its closures: the signal list is built once from the document "
+            "(inputs then outputs, document order) and afterwards only read or changed in place - nothing removes, inserts, sorts "
+            "or otherwise re-orders it, so the order does not depend on the iteration order of the hash sets used for the "
+            "read-back columns (call sites of the MIR)")
+def dig_signal_order(O):
+    m = O.mir
+    R = dri.Rep({"family": "dig"}, B.dig_battery(), B.dig_judge)
+    rx = re.compile(r"Vec::<Signal>::(?:remove|insert|swap_remove|retain|retain_mut|sort\w*|push|extend\w*|truncate|drain|splice|dedup\w*|append|split_off)\b"
+                    r"|<impl \[Signal\]>::(?:swap|sort\w*|reverse|rotate_\w+|select_nth\w*)\b")
+    n = 0
+    bad = []
+    for name, f in m.funcs.items():
+        if "src/dig.rs" not in name and not name.startswith("dig::"):
+            continue
+        if not re.search(r"::parse(?:::\{closure#\d+\})*$", name):
+            continue
+        n += 1
+        O.rec["functions"][name.split("::")[-1] if "closure" not in name else name[-40:]] = f.text_hash
+        for bb, (stmts, term) in f.blocks.items():
+            if term and term[0] == "call" and rx.search(str(term[2])):
+                bad.append(str(term[2])[:80])
+    O.rec["paths"] += n
+    if n == 0:
+        O.inconclusive("cannot find dig::File::parse")
+    for b_ in sorted(set(bad))[:3]:
+        O.violation("File::parse restructures the signal list (%s)" % b_, None, dict(R.facts, what="signal list re-ordered"), R.battery, R.judge, b_)
